@@ -2,6 +2,7 @@
 import YkDrv.Util
 import YkModel.Place
 import YkModel.PlaceSpec
+import YkDrv.ReloadDrv
 open Lean Yk.Place
 
 namespace YkDrv
@@ -47,7 +48,8 @@ def jPQueue (j : Json) : Except String Queue := do
   let sacl ← match newACL (← jS (← fld j "sacl")) with | some a => pure a | none => throw "submit ACL does not parse"
   let aacl ← match newACL (← jS (← fld j "aacl")) with | some a => pure a | none => throw "admin ACL does not parse"
   pure { path := splitDot (← jS (← fld j "p")), leaf := ← jBool (← fld j "leaf"), managed := ← jBool (← fld j "man"),
-         draining := ← jBool (← fld j "drain"), sacl := sacl, aacl := aacl, tpl := ← jS (← fld j "tpl"), cfg := ← jS (← fld j "cfg") }
+         draining := ← jBool (← fld j "drain"), sacl := sacl, aacl := aacl, tpl := ← jS (← fld j "tpl"), cfg := ← jS (← fld j "cfg"),
+         tplProps := ← rlProps (fldD j "tprops" .null), set := ← (fld j "set") >>= rlSettings }
 
 def jPTree (j : Json) : Except String Tree := do (← jArr j).toList.mapM jPQueue
 
@@ -59,11 +61,22 @@ def sortPTree (t : Tree) : Tree := t.foldl (fun acc q => insPQ q acc) []
 def showPQ (q : Queue) : String :=
   s!"{showName q.path}[leaf={q.leaf},managed={q.managed},draining={q.draining},tpl={toS q.tpl},cfg={toS q.cfg}]"
 
+/-- the template properties and the effective settings of a queue -/
+def showPSet (q : Queue) : String := s!"{showName q.path} tplProps={q.tplProps} settings={showSet q.set}"
+
 def placeTreeDiff (m impl : Tree) : Option String :=
   let a := sortPTree m
   let b := sortPTree impl
   if a.length != b.length then some s!"tree-size model={a.map (fun q => showName q.path)} impl={b.map (fun q => showName q.path)}"
-  else (a.zip b).findSome? (fun (x, y) => if x = y then none else some s!"queue model={showPQ x} impl={showPQ y}")
+  else (a.zip b).findSome? (fun (x, y) =>
+    if x = y then none
+    -- only the derived settings / template properties differ: named so that the verdict says `place.settings`
+    else if { x with set := y.set, tplProps := y.tplProps } = y then some s!"settings model={showPSet x} impl={showPSet y}"
+    else some s!"queue model={showPQ x} impl={showPQ y}")
+
+/-- verdict text of a tree difference: `diff place.settings …` when only effective settings differ -/
+def treeVerdict (what : String) (d : String) : String :=
+  if d.startsWith "settings " then "diff place.settings (" ++ what ++ ") " ++ (d.drop 9).toString else "diff place." ++ what ++ " " ++ d
 
 def showReason : Reason → String
   | .noRule => "no-rule"
@@ -148,10 +161,11 @@ def placeStep (st : PlaceSt) (j : Json) : Except String (PlaceSt × String) := d
         -- queues named by the configuration are active again; the queue configuration is the same, so nothing else
         -- should change. Child templates of managed queues are taken from the implementation and judged by clause T1
         let tplOf (q : Queue) : Str := match findQ impl q.path with | some x => x.tpl | none => q.tpl
-        let m := st.tree.map (fun q => if q.managed then { q with draining := false, tpl := tplOf q } else q)
+        let tplPropsOf (q : Queue) : Yk.Reload.Props := match findQ impl q.path with | some x => x.tplProps | none => q.tplProps
+        let m := st.tree.map (fun q => if q.managed then { q with draining := false, tpl := tplOf q, tplProps := tplPropsOf q } else q)
         let lost := st.tree.filter (fun q => q.managed && tplOf q != q.tpl)
         let v := match placeTreeDiff m impl with
-          | some d => "diff place.reload " ++ d
+          | some d => treeVerdict "reload" d
           | none =>
             if lost.isEmpty then "ok"
             else s!"inv C17.T1 reload with an unchanged queue configuration changed the child template of {lost.map (fun q => showName q.path)}"
@@ -161,7 +175,7 @@ def placeStep (st : PlaceSt) (j : Json) : Except String (PlaceSt × String) := d
     let impl ← jPTree (← fld j "st")
     let q := lowerName (splitDot (← jS (← fld j "q")))
     let m := markForRemoval st.tree q
-    let v := match placeTreeDiff m impl with | none => "ok" | some d => "diff place.drain " ++ d
+    let v := match placeTreeDiff m impl with | none => "ok" | some d => treeVerdict "drain" d
     pure ({ st with tree := impl }, v)
   | "acl" =>
     let u : User := { name := ← jS (← fld j "user"), groups := ← jSList (fldD j "groups" .null) }
@@ -203,7 +217,7 @@ def placeStep (st : PlaceSt) (j : Json) : Except String (PlaceSt × String) := d
       if io != mo then diffs := diffs ++ [s!"diff place.outcome model={showOutcome mo} impl={showOutcome io}"]
     match placeTreeDiff mt impl with
     | none => pure ()
-    | some d => diffs := diffs ++ ["diff place.tree " ++ d]
+    | some d => diffs := diffs ++ [treeVerdict "tree" d]
     -- the property clauses on the implementation's answer
     let mut inv : List String := []
     match implOut with
@@ -224,6 +238,8 @@ def placeStep (st : PlaceSt) (j : Json) : Except String (PlaceSt × String) := d
       if !clauseF1 rx st.tree st.rules a o then inv := inv ++ [s!"C17.F1 not the answer of the rules with the filter types read as configured (deny in another capitalisation) {ctx}"]
       if !clauseN1 rx st.tree st.rules a o then inv := inv ++ [s!"C17.N1 no rule matched but not rejected as such {ctx}"]
       if !clauseC1 rx st.tree st.rules a o then inv := inv ++ [s!"C17.C1 queue creation outside the create clause {ctx} new={(newQueues st.tree impl).map showPQ}"]
+      if !clauseC2 rx st.tree st.rules a o then inv := inv ++ [s!"C17.C2 created-queue-settings-follow-template: the effective settings of a created queue are not the ones derived from the child template {ctx} new={(newQueues st.tree impl).map showPSet}"]
+      if !clauseV2 st.tree o then inv := inv ++ [s!"C17.V2 a queue was created at or below the recovery queue path that is not the recovery leaf {ctx} new={(newQueues st.tree impl).map showPQ}"]
       if !clauseV1 a o then inv := inv ++ [s!"C17.V1 recovery queue used by an application that is not forced {ctx}"]
     let all := diffs ++ inv
     let v := if all.isEmpty then "ok"
